@@ -608,7 +608,7 @@ func engineB(c *core.Ctx) error {
 		plans = []plan{{"scorch", 9}, {"scorch", 14}, {"scorch", 23}, {"scorch", 33}, {"scorch", 40}, {"scorch", 31},
 			{"upsidedown", 12}, {"upsidedown", 26}, {"upsidedown", 37}}
 	}
-	perQuery := c.Pick(45, 160)
+	perQuery := c.Pick(45, 100)
 
 	var groups []*bGroup
 	defer func() {
@@ -665,6 +665,7 @@ func engineB(c *core.Ctx) error {
 	// judge in chunks, in parallel; every chunk carries a corrupted canary
 	// record that TLC must reject (vacuity guard)
 	const chunk = 250
+	const maxJudgeFail = 5 // rejected records reported per chunk (each costs one more TLC pass)
 	type job struct{ lo, hi int }
 	var jobs []job
 	for lo := 0; lo < len(recs); lo += chunk {
@@ -693,7 +694,7 @@ func engineB(c *core.Ctx) error {
 			}
 			records = append(records, canaryRecord())
 			canary := len(records) - 1
-			bad, err := c.JudgeRecords("JudgeCollector", "JudgeCollector.cfg", records, 12, core.Timeout(15*time.Minute))
+			bad, err := c.JudgeRecords("JudgeCollector", "JudgeCollector.cfg", records, maxJudgeFail, core.Timeout(15*time.Minute))
 			mu.Lock()
 			defer mu.Unlock()
 			if err != nil {
@@ -703,7 +704,7 @@ func engineB(c *core.Ctx) error {
 				return
 			}
 			c.Traces(1)
-			if bad[canary] != "RecHits" && len(bad) < 12 {
+			if bad[canary] != "RecHits" && len(bad) < maxJudgeFail {
 				if firstErr == nil {
 					firstErr = fmt.Errorf("engine B: the judge accepted the corrupted canary record, verdict %q", bad[canary])
 				}
